@@ -408,4 +408,234 @@ Proof.
   intros [] _; [exact I | reflexivity].
 Qed.
 
-End WithPrims.
+
+(* ---------------- JWS JSON serialization ---------------- *)
+Definition hdr_ok (v : pv) : bool := match v with PNone | PDict _ => true | _ => false end.
+
+Lemma update_if_truthy_ok rv v : hdr_ok v = true -> exists d, update_if_truthy rv v = Ok d.
+Proof.
+  destruct v; try discriminate; intros _; unfold update_if_truthy; cbn [py_truth]; eauto.
+  destruct d; cbn [py_update]; eauto.
+Qed.
+
+Lemma member_headers_dict p h : hdr_ok p = true -> hdr_ok h = true ->
+  exists d, member_headers p h = Ok (PDict d).
+Proof.
+  intros A B. unfold member_headers.
+  destruct (update_if_truthy_ok [] p A) as [d1 E1]. rewrite E1. cbn [bind].
+  destruct (update_if_truthy_ok d1 h B) as [d2 E2]. rewrite E2. cbn [bind]. eauto.
+Qed.
+
+Lemma opt_is_get d k p v : opt_is d k p = true -> dget d (SK k) = Some v -> p v = true.
+Proof. unfold opt_is. intros H E. rewrite E in H. exact H. Qed.
+Lemma req_is_get d k p : req_is d k p = true -> exists v, dget d (SK k) = Some v /\ p v = true.
+Proof. unfold req_is. destruct (dget d (SK k)); [eauto | discriminate]. Qed.
+
+Lemma getitem_of_dget d k v : dget d k = Some v -> py_getitem_str (PDict d) k = Ok v.
+Proof. intro E. cbn [py_getitem_str]. rewrite E. reflexivity. Qed.
+Lemma dmem_of_dget {A} (d : list (str * A)) k v : dget d k = Some v -> dmem d k = true.
+Proof. unfold dmem. intro E. rewrite E. reflexivity. Qed.
+
+Lemma opt_member_spec d k p :
+  opt_is d k p = true ->
+  exists v, opt_member (PDict d) k = Ok v /\ (if dmem d (SK k) then p v = true else v = PNone).
+Proof.
+  intro O. unfold opt_member. rewrite py_in_dict. cbn [bind].
+  destruct (dmem d (SK k)) eqn:M; [|eauto].
+  destruct (getitem_dict_mem _ _ M) as [v [G D]]. rewrite G. exists v. split; [reflexivity|].
+  eapply opt_is_get; eauto.
+Qed.
+
+Lemma is_dict_hdr_ok v : is_dict v = true -> hdr_ok v = true.
+Proof. destruct v; auto. Qed.
+
+Lemma signature_to_member_spec g sig :
+  g_rec_header g = true -> g_dict_jws_json g = true -> jws_sig_shape sig = true ->
+  match signature_to_member g P sig with
+  | Ok m => hdr_ok (fst m) = true /\ hdr_ok (snd m) = true
+  | Err e => allowed_exn e = true
+  end.
+Proof.
+  intros G1 G2 Sh. destruct sig; try discriminate. cbn [jws_sig_shape] in Sh.
+  apply andb_true_iff in Sh. destruct Sh as [Sh Oh]. apply andb_true_iff in Sh. destruct Sh as [_ Op].
+  unfold signature_to_member. rewrite py_in_dict. cbn [bind].
+  assert (X : match (if dmem d (SK "protected")
+                     then do seg <- py_getitem_str (PDict d) (SK "protected");
+                          do p <- json_b64decode g P seg;
+                          if g_dict_jws_json g && negb (is_dict p) then Err (EJose DecodeError) else Ok p
+                     else Ok PNone) with
+              | Ok p => hdr_ok p = true | Err e => allowed_exn e = true end).
+  { destruct (dmem d (SK "protected")) eqn:M; [|reflexivity].
+    destruct (getitem_dict_mem _ _ M) as [seg [Gs Ds]]. rewrite Gs. cbn [bind].
+    pose proof (opt_is_get _ _ _ _ Op Ds) as IS.
+    pose proof (json_b64decode_only g seg G1 (or_introl IS)) as J.
+    destruct (json_b64decode g P seg) as [p|e]; cbn [bind]; [|rewrite (J e eq_refl); reflexivity].
+    rewrite G2. destruct (is_dict p) eqn:D; cbn [negb andb]; [apply is_dict_hdr_ok; exact D | reflexivity]. }
+  destruct (if dmem d (SK "protected") then _ else _) as [p|e]; cbn [bind]; [|exact X].
+  destruct (opt_member_spec d "header" is_dict Oh) as [h [Eh Ph]]. rewrite Eh. cbn [bind fst snd].
+  split; [exact X|]. destruct (dmem d (SK "header")); [apply is_dict_hdr_ok; exact Ph | subst; reflexivity].
+Qed.
+
+Lemma str_utf8_only v : is_str v = true -> only_value (str_utf8 v).
+Proof. destruct v; try discriminate. intros _. apply encode_utf8_only. Qed.
+
+Lemma verify_signature_safe g reg ka p h sig pseg :
+  g_crit g = true -> g_eddsa g = true -> jws_reg_wf reg = true ->
+  hdr_ok p = true -> hdr_ok h = true -> jws_sig_shape sig = true ->
+  safe (verify_signature g P reg ka (p, h) sig pseg).
+Proof.
+  intros G1 G2 W A B Sh. unfold verify_signature. cbn [fst snd].
+  destruct (member_headers_dict p h A B) as [d E]. rewrite E. cbn [bind].
+  pose proof W as W'. apply andb_true_iff in W'. destruct W' as [W1 _].
+  apply safe_bind; [apply only_value_safe, jws_check_header_only; assumption|].
+  intros [] Hc.
+  destruct (jws_check_header_alg _ _ _ W Hc) as [s Ds].
+  rewrite (getitem_of_dget _ _ _ Ds). cbn [bind].
+  pose proof (jws_get_alg_spec g reg (PStr s) (or_intror eq_refl)) as Al.
+  destruct (jws_get_alg g reg (PStr s)) as [row|e]; cbn [bind]; [|subst; reflexivity].
+  apply safe_bind; [apply guess_key_safe|]. intros k _.
+  apply safe_bind; [apply check_use_safe|]. intros _ _.
+  unfold jws_check_key_type. destruct (String.eqb (k_kty k) (ja_key_type row)) eqn:KT; cbn [bind]; [|reflexivity].
+  apply String.eqb_eq in KT.
+  destruct sig as [| | | | | |l|sd]; try discriminate. cbn [jws_sig_shape] in Sh.
+  apply andb_true_iff in Sh. destruct Sh as [Sh _]. apply andb_true_iff in Sh. destruct Sh as [Rs Op].
+  rewrite py_in_dict. cbn [bind].
+  apply safe_bind.
+  { destruct (dmem sd (SK "protected")) eqn:M; [|exact I].
+    destruct (getitem_dict_mem _ _ M) as [seg [Gs Dsg]]. rewrite Gs. cbn [bind].
+    apply only_value_safe, str_utf8_only. eapply opt_is_get; eauto. }
+  intros protseg _.
+  destruct (req_is_get _ _ _ Rs) as [sv [Dsv ISv]]. rewrite (getitem_of_dget _ _ _ Dsv). cbn [bind].
+  apply safe_bind; [apply only_value_safe, str_utf8_only; exact ISv|]. intros sb _.
+  apply safe_bind; [apply b64d_safe|]. intros sigb _.
+  apply jws_alg_verify_safe; assumption.
+Qed.
+
+Definition member_ok (ms : (pv * pv) * pv) : Prop :=
+  hdr_ok (fst (fst ms)) = true /\ hdr_ok (snd (fst ms)) = true /\ jws_sig_shape (snd ms) = true.
+
+Lemma verify_all_safe g reg ka pseg l :
+  g_crit g = true -> g_eddsa g = true -> jws_reg_wf reg = true ->
+  Forall member_ok l -> safe (verify_all g P reg ka pseg l).
+Proof.
+  intros G1 G2 W F. induction F as [|[[p h] s] l [A [B C]] F IH]; [exact I|].
+  cbn [verify_all]. apply safe_bind; [apply verify_signature_safe; assumption|].
+  intros [] _; [exact IH | exact I].
+Qed.
+
+Lemma mapM_members g l :
+  g_rec_header g = true -> g_dict_jws_json g = true -> forallb jws_sig_shape l = true ->
+  match mapM (signature_to_member g P) l with
+  | Ok ms => Forall member_ok (combine ms l)
+  | Err e => allowed_exn e = true
+  end.
+Proof.
+  intros G1 G2. induction l as [|x r IH]; intro F; [constructor|].
+  cbn [forallb] in F. apply andb_true_iff in F. destruct F as [Fx Fr].
+  cbn [mapM]. pose proof (signature_to_member_spec g x G1 G2 Fx) as Sx.
+  destruct (signature_to_member g P x) as [m|e]; cbn [bind]; [|exact Sx].
+  specialize (IH Fr). destruct (mapM (signature_to_member g P) r) as [ms|e]; cbn [bind]; [|exact IH].
+  cbn [combine]. constructor; [|exact IH]. destruct Sx as [S1 S2]. repeat split; assumption.
+Qed.
+
+Lemma json_payload_safe d : req_is d "payload" is_str = true -> safe (json_payload (PDict d)).
+Proof.
+  intro R. unfold json_payload. destruct (req_is_get _ _ _ R) as [v [D IS]].
+  rewrite (getitem_of_dget _ _ _ D). cbn [bind].
+  apply safe_bind; [apply only_value_safe, str_utf8_only; exact IS|]. intros pseg _.
+  apply safe_bind; [apply catch_b64d_safe|]. intros payload _. exact I.
+Qed.
+
+(* the _sig dict rebuilt from a flattened serialization has the signature shape again *)
+Lemma flat_sig_spec d :
+  jws_sig_shape (PDict d) = true ->
+  exists sg, flat_sig (PDict d) = Ok sg /\ jws_sig_shape sg = true.
+Proof.
+  intro Sh. cbn [jws_sig_shape] in Sh.
+  apply andb_true_iff in Sh. destruct Sh as [Sh Oh]. apply andb_true_iff in Sh. destruct Sh as [Rs Op].
+  unfold flat_sig. destruct (req_is_get _ _ _ Rs) as [sv [Dsv ISv]]. rewrite (getitem_of_dget _ _ _ Dsv). cbn [bind].
+  destruct (opt_member_spec d "protected" is_str Op) as [p [Ep Pp]]. rewrite Ep. cbn [bind].
+  destruct (opt_member_spec d "header" is_dict Oh) as [h [Eh Ph]]. rewrite Eh. cbn [bind].
+  rewrite !py_in_dict. cbn [bind]. eexists. split; [reflexivity|].
+  destruct sv; try discriminate.
+  destruct (dmem d (SK "protected")) eqn:Mp; destruct (dmem d (SK "header")) eqn:Mh;
+    unfold jws_sig_shape, req_is, opt_is; cbn; try rewrite Pp; try rewrite Ph; reflexivity.
+Qed.
+
+Definition needs_jws_json (g : guards) : bool :=
+  g_rec_header g && g_dict_jws_json g && g_crit g && g_eddsa g.
+
+Theorem jws_deserialize_json_safe g reg ka value :
+  needs_jws_json g = true -> jws_reg_wf reg = true -> jws_documented_shape value = true ->
+  safe (jws_deserialize_json g P reg ka value).
+Proof.
+  intros N W Sh. unfold needs_jws_json in N. repeat (apply andb_true_iff in N; destruct N as [N ?]).
+  destruct value as [| | | | | |l0|d]; try discriminate. cbn [jws_documented_shape] in Sh.
+  apply andb_true_iff in Sh. destruct Sh as [Rp Rest].
+  unfold jws_deserialize_json. rewrite py_in_dict. cbn [bind].
+  destruct (dmem d (SK "signatures")) eqn:M.
+  - apply safe_bind; [apply json_payload_safe; exact Rp|]. intros pp _.
+    destruct (req_is_get _ _ _ Rest) as [sv [Dsv Ls]]. rewrite (getitem_of_dget _ _ _ Dsv). cbn [bind].
+    destruct sv as [| | | | | |l|sd]; try discriminate. cbn [list_of] in Ls. cbn [py_iter bind].
+    pose proof (mapM_members g l N H1 Ls) as MM.
+    destruct (mapM (signature_to_member g P) l) as [ms|e]; cbn [bind]; [|exact MM].
+    destruct l as [|x r]; [reflexivity|].
+    apply safe_bind; [apply verify_all_safe; assumption|]. intros [] _; [exact I | reflexivity].
+  - apply safe_bind; [apply json_payload_safe; exact Rp|]. intros pp _.
+    destruct (flat_sig_spec d Rest) as [sg [E Sg]]. rewrite E. cbn [bind].
+    pose proof (signature_to_member_spec g sg N H1 Sg) as Sm.
+    destruct (signature_to_member g P sg) as [[p h]|e]; cbn [bind]; [|exact Sm].
+    cbn [fst snd] in Sm. destruct Sm as [S1 S2].
+    apply safe_bind; [apply verify_signature_safe; assumption|]. intros [] _; [exact I | reflexivity].
+Qed.
+
+Definition needs_7797_json (g : guards) : bool := needs_jws_json g && g_dict_7797_json g.
+
+Theorem r7797_deserialize_json_safe g reg0 reg7 ka value :
+  needs_7797_json g = true -> jws_reg_wf reg0 = true -> jws_reg_wf reg7 = true ->
+  jws_documented_shape value = true ->
+  safe (r7797_deserialize_json g P reg0 reg7 ka value).
+Proof.
+  intros N W0 W7 Sh. apply andb_true_iff in N. destruct N as [N G7].
+  pose proof N as N'. unfold needs_jws_json in N'. repeat (apply andb_true_iff in N'; destruct N' as [N' ?]).
+  destruct value as [| | | | | |l0|d] eqn:EV; try discriminate. rewrite <- EV in *.
+  assert (J0 : forall reg, jws_reg_wf reg = true -> safe (jws_deserialize_json g P reg ka value))
+    by (intros; apply jws_deserialize_json_safe; assumption).
+  rewrite EV in Sh |- *. cbn [jws_documented_shape] in Sh.
+  apply andb_true_iff in Sh. destruct Sh as [Rp Rest].
+  unfold r7797_deserialize_json. rewrite py_in_dict. cbn [bind].
+  destruct (dmem d (SK "signatures")) eqn:M; [rewrite <- EV; apply J0; assumption|].
+  pose proof Rest as Rest'. cbn [jws_sig_shape] in Rest'.
+  apply andb_true_iff in Rest'. destruct Rest' as [Sh Oh]. apply andb_true_iff in Sh. destruct Sh as [Rs Op].
+  rewrite py_in_dict. cbn [bind].
+  assert (X : match (if dmem d (SK "protected")
+                     then do seg <- py_getitem_str (PDict d) (SK "protected");
+                          do segb <- to_bytes false seg;
+                          do p <- json_b64decode g P (PBytes segb);
+                          if g_dict_7797_json g && negb (is_dict p) then Err (EJose DecodeError) else Ok p
+                     else Ok PNone) with
+              | Ok p => hdr_ok p = true | Err e => allowed_exn e = true end).
+  { destruct (dmem d (SK "protected")) eqn:Mp; [|reflexivity].
+    destruct (getitem_dict_mem _ _ Mp) as [seg [Gs Ds]]. rewrite Gs. cbn [bind].
+    pose proof (opt_is_get _ _ _ _ Op Ds) as IS. destruct seg; try discriminate.
+    pose proof (to_bytes_str_only false s) as TB.
+    destruct (to_bytes false (PStr s)) as [segb|e]; cbn [bind]; [|rewrite (TB e eq_refl); reflexivity].
+    pose proof (json_b64decode_only g (PBytes segb) N' (or_intror (ex_intro _ segb eq_refl))) as J.
+    destruct (json_b64decode g P (PBytes segb)) as [p|e]; cbn [bind]; [|rewrite (J e eq_refl); reflexivity].
+    rewrite G7. destruct (is_dict p) eqn:D; cbn [negb andb]; [apply is_dict_hdr_ok; exact D | reflexivity]. }
+  destruct (if dmem d (SK "protected") then _ else _) as [p|e]; cbn [bind]; [|exact X].
+  assert (Hh : exists h, py_get_str (PDict d) (SK "header") = Ok h /\ hdr_ok h = true).
+  { cbn [py_get_str]. destruct (dget d (SK "header")) as [h|] eqn:Dh; [|eauto].
+    exists h. split; [reflexivity|]. apply is_dict_hdr_ok. eapply opt_is_get; eauto. }
+  destruct Hh as [h [Eh Hh]]. rewrite Eh. cbn [bind].
+  destruct (member_headers_dict p h X Hh) as [hd Ehd]. rewrite Ehd. cbn [bind].
+  rewrite py_in_dict. cbn [bind].
+  destruct (dmem hd (SK "b64")) eqn:Mb; cbn [negb]; [|rewrite <- EV; apply J0; assumption].
+  destruct (req_is_get _ _ _ Rp) as [pv_ [Dp ISp]]. rewrite (getitem_of_dget _ _ _ Dp). cbn [bind].
+  destruct pv_; try discriminate.
+  apply safe_bind; [apply to_bytes_str_safe|]. intros payload _.
+  destruct (flat_sig_spec d Rest) as [sg [E Sg]]. rewrite E. cbn [bind].
+  destruct (getitem_dict_mem _ _ Mb) as [b [Gb _]]. rewrite Gb. cbn [bind].
+  destruct (is_true b); [rewrite <- EV; apply J0; assumption|].
+  apply safe_bind; [apply verify_signature_safe; assumption|]. intros [] _; [exact I | reflexivity].
+Qed.
